@@ -14,7 +14,6 @@ import (
 	"math"
 	"runtime"
 	"runtime/debug"
-	"strconv"
 	"strings"
 	"sync"
 
@@ -141,11 +140,7 @@ func (v *violation) Error() string { return v.api + ": " + v.msg }
 // guard runs one decoder call sequence.  f must build its own reader from the
 // input bytes (it may be run again to re-measure) and returns an oracle error for
 // the rows / contract clauses.
-func guard(api string, n int, f func() error) error { return guardExtra(api, n, 0, f) }
-
-// guardExtra is guard with an allowance added to the allocation bound (used only
-// for the excluded input class of a known finding).
-func guardExtra(api string, n int, extra uint64, f func() error) error {
+func guard(api string, n int, f func() error) error {
 	baselineOnce.Do(calibrate)
 	var perr error
 	var pval any
@@ -178,7 +173,7 @@ func guardExtra(api string, n int, extra uint64, f func() error) error {
 	if perr != nil {
 		return perr
 	}
-	if bound := allocBound(n) + extra; d > bound {
+	if bound := allocBound(n); d > bound {
 		// allocation by another goroutine between the two samples would be counted too: only the
 		// smallest of three measurements is held against the decoder
 		for i := 0; i < 2 && d > bound; i++ {
@@ -278,34 +273,17 @@ func checkSTL(data []byte, mode string, rep *report) error {
 }
 
 // checkOFF: ReadFace returns at most one face per input line; ReadOFF at most
-// one triangle per two input bytes (a k-gon line has at least 2k+2 bytes and
-// yields k-2 triangles).
-func checkOFF(data []byte, mode string, skipTriangulation bool, extra uint64, rep *report) error {
+// one triangle per two input bytes (a k-gon line has at least 2k+1 bytes and
+// yields k-2 triangles).  The row API runs first: the faces it returns are what
+// ReadOFF hands to the triangulator, which is how membership in the excluded
+// class of the known finding off-degenerate-polygon is decided (skipped = ReadOFF
+// was not run because a face with >= 4 vertices is outside general convex position).
+func checkOFF(data []byte, mode string, excludePolygons bool, rep *report) (skipped bool, err error) {
 	n := len(data)
-	lines := bytes.Count(data, []byte{'\n'})
-	if !skipTriangulation {
-		if err := guardExtra(apiName("model3d.ReadOFF", mode), n, extra, func() error {
-			tris, err := model3d.ReadOFF(newCR(data, mode))
-			if err != nil {
-				return nil
-			}
-			rep.ok = true
-			if len(tris) > n/2 {
-				return rowsErr(apiName("model3d.ReadOFF", mode), "returned %d triangles from %d bytes", len(tris), n)
-			}
-			for i, t := range tris {
-				if t == nil {
-					return contractErr(apiName("model3d.ReadOFF", mode), "nil error but triangle %d is nil", i)
-				}
-			}
-			return nil
-		}); err != nil {
-			return err
-		}
-	}
-	// ReadFace is called once more after its first error, and a failed vertex read is retried
-	// (with its pre-allocation) by every call: twice the allowance of the excluded class
-	return guardExtra(apiName("fileformats.OFFReader", mode), n, 2*extra, func() error {
+	lines := bytes.Count(data, []byte{'\n'}) + 1
+	degenerate := false
+	if err := guard(apiName("fileformats.OFFReader", mode), n, func() error {
+		degenerate = false
 		cr := newCR(data, mode)
 		r, err := fileformats.NewOFFReader(cr)
 		if err != nil {
@@ -329,9 +307,33 @@ func checkOFF(data []byte, mode string, skipTriangulation bool, extra uint64, re
 			}
 			if len(face) >= 4 {
 				rep.label("off:polygon-face")
+				if !generalConvex(face) {
+					degenerate = true
+				}
 			}
 		}
 		r.ReadFace()
+		return nil
+	}); err != nil {
+		return false, err
+	}
+	if excludePolygons && degenerate {
+		return true, nil
+	}
+	return false, guard(apiName("model3d.ReadOFF", mode), n, func() error {
+		tris, err := model3d.ReadOFF(newCR(data, mode))
+		if err != nil {
+			return nil
+		}
+		rep.ok = true
+		if len(tris) > n/2 {
+			return rowsErr(apiName("model3d.ReadOFF", mode), "returned %d triangles from %d bytes", len(tris), n)
+		}
+		for i, t := range tris {
+			if t == nil {
+				return contractErr(apiName("model3d.ReadOFF", mode), "nil error but triangle %d is nil", i)
+			}
+		}
 		return nil
 	})
 }
@@ -548,100 +550,6 @@ func checkCSV(data []byte, mode string, rep *report) error {
 // ---------------------------------------------------------------------------
 // the excluded OFF input class (known finding off-degenerate-polygon)
 
-// offPolygons re-reads the input the way the OFF format is laid out (first line
-// "OFF" optionally followed by the counts, counts, one vertex per line, one face
-// per line) and returns the faces with four or more vertices that a conforming
-// reader hands to a triangulator before it meets the first malformed line.
-func offPolygons(data []byte) [][][3]float64 {
-	polys, _ := offParse(data)
-	return polys
-}
-
-// offParse also returns the vertex count declared by the header (-1: no header).
-func offParse(data []byte) (polys [][][3]float64, declared int) {
-	declared = -1
-	pos := 0
-	line := func() (string, bool) {
-		i := bytes.IndexByte(data[pos:], '\n')
-		if i < 0 {
-			return "", false
-		}
-		s := string(data[pos : pos+i+1])
-		pos += i + 1
-		return s, true
-	}
-	l1, ok := line()
-	if !ok || !strings.HasPrefix(l1, "OFF") {
-		return nil, declared
-	}
-	l2 := l1[3:]
-	if len(l1) <= 4 {
-		if l2, ok = line(); !ok {
-			return nil, declared
-		}
-	}
-	parts := strings.Fields(l2)
-	if len(parts) != 3 {
-		return nil, declared
-	}
-	nv, err := strconv.Atoi(parts[0])
-	if err != nil || nv < 0 {
-		return nil, declared
-	}
-	nf, err := strconv.Atoi(parts[1])
-	if err != nil || nf < 0 {
-		return nil, declared
-	}
-	declared = nv
-	if nf == 0 {
-		return nil, declared // vertices are only read when the first face is
-	}
-	var verts [][3]float64
-	for i := 0; i < nv; i++ {
-		l, ok := line()
-		if !ok {
-			return nil, declared
-		}
-		p := strings.Fields(l)
-		if len(p) != 3 {
-			return nil, declared
-		}
-		var v [3]float64
-		for j := range p {
-			if v[j], err = strconv.ParseFloat(p[j], 64); err != nil {
-				return nil, declared
-			}
-		}
-		verts = append(verts, v)
-	}
-	for i := 0; i < nf; i++ {
-		l, ok := line()
-		if !ok {
-			return polys, declared
-		}
-		p := strings.Fields(l)
-		if len(p) == 0 {
-			return polys, declared
-		}
-		k, err := strconv.Atoi(p[0])
-		if err != nil || k < 0 || k+1 != len(p) {
-			return polys, declared
-		}
-		poly := make([][3]float64, k)
-		for j, s := range p[1:] {
-			idx, err := strconv.Atoi(s)
-			if err != nil || idx < 0 || idx >= len(verts) {
-				return polys, declared
-			}
-			poly[j] = verts[idx]
-		}
-		if k >= 4 {
-			polys = append(polys, poly)
-		}
-	}
-	return polys, declared
-}
-
 // generalConvex reports whether the polygon is finite, of moderate size, planar
 // (to 1e-6 of its diameter), strictly convex with every corner turning by at
 // least ~0.06 degrees the same way, and winds around once.
@@ -712,27 +620,6 @@ func isOFFDegeneratePanic(err error) bool {
 // checkTarget runs every API of the target's format on the input and returns the
 // tags of the switched-off known-finding classes the input belongs to.
 func checkTarget(target string, data []byte, ex exclusions, rep *report) (excluded []string, err error) {
-	var skipTri bool
-	var extra uint64
-	if target == "ReadOFF" {
-		polys, declared := offParse(data)
-		if ex.offPolygon {
-			for _, p := range polys {
-				if !generalConvex(p) {
-					skipTri = true
-				}
-			}
-			if skipTri {
-				excluded = append(excluded, offTag)
-			}
-		}
-		if ex.offPrealloc && declared >= offPreallocClass {
-			// known finding off-vertex-prealloc: the vertex table is pre-allocated from the declared
-			// count, capped at 2^16 entries of 24 bytes; exactly that much is not held against the reader
-			extra = 24 * uint64(min(declared, 1<<16))
-			excluded = append(excluded, offPreallocTag)
-		}
-	}
 	for _, mode := range readerModes {
 		r := rep
 		if mode != "" {
@@ -742,7 +629,11 @@ func checkTarget(target string, data []byte, ex exclusions, rep *report) (exclud
 		case "ReadSTL":
 			err = checkSTL(data, mode, r)
 		case "ReadOFF":
-			err = checkOFF(data, mode, skipTri, extra, r)
+			var skipped bool
+			skipped, err = checkOFF(data, mode, ex.offPolygon, r)
+			if skipped && mode == "" {
+				excluded = append(excluded, offTag)
+			}
 		case "ReadColorPLY":
 			err = checkColorPLY(data, mode, r)
 		case "PLYReader":
@@ -761,12 +652,7 @@ func checkTarget(target string, data []byte, ex exclusions, rep *report) (exclud
 
 // exclusions: known-finding input classes that are switched off.
 type exclusions struct {
-	offPolygon  bool // ReadOFF is not run on inputs with a polygon face outside general convex position
-	offPrealloc bool // OFF inputs declaring >= offPreallocClass vertices get the capped pre-allocation as allowance
+	offPolygon bool // ReadOFF is not run on inputs with a polygon face outside general convex position
 }
 
-const (
-	offTag           = "off-degenerate-polygon"
-	offPreallocTag   = "off-vertex-prealloc"
-	offPreallocClass = 1 << 14 // below this count two pre-allocations (ReadFace is called twice) stay under 0.75 MiB
-)
+const offTag = "off-degenerate-polygon"
